@@ -348,6 +348,18 @@ func cmdCheck(args []string) {
 		os.WriteFile(deadBasePath, b, 0644)
 	}
 	if *updateBaseline {
+		// types of the locals the contracts name (merged over the properties)
+		np := filepath.Join(verif, "baseline", "names.json")
+		merged := map[string]map[string]string{}
+		if b, err := os.ReadFile(np); err == nil {
+			json.Unmarshal(b, &merged)
+		}
+		for fn, m := range eng.seenNames {
+			merged[fn] = m // the names seen now replace what was recorded for the function
+		}
+		if b, err := json.MarshalIndent(merged, "", " "); err == nil {
+			os.WriteFile(np, b, 0644)
+		}
 		var names []string
 		for _, r := range results {
 			if !r.Canary && (r.Status == "unsat" || r.Status == "ok") {
